@@ -129,6 +129,38 @@ int main(void) {
                            meaning='old values returned by atomic_fetch_*, exchange, compare-exchange success/failure write-back, op= / ++ on _Atomic unsigned char',
                            replay_program=api), dict(area='atomic-api'))
 
+    # ---- (b2) the same API on objects that are not integers: float, double, _Bool, pointers (exchange / compare-exchange / op= are generic, 7.17.7)
+    api2 = '''#include <stdatomic.h>
+int printf(const char *, ...);
+_Atomic double d = 1.5; _Atomic float f = 2.5f; _Atomic char c = 7; _Atomic long l = 5; _Atomic _Bool b; int arr[8]; int *_Atomic p = arr;
+int main(void) {
+  double od = atomic_exchange(&d, 2); float of = atomic_exchange(&f, 3.25);
+  double e = 2.0; int ok1 = atomic_compare_exchange_strong(&d, &e, 9);
+  double e2 = 1.0; int ok2 = atomic_compare_exchange_strong(&d, &e2, 4.5);
+  float ef = 3.25f; int ok3 = atomic_compare_exchange_strong(&f, &ef, 1);
+  char oc = atomic_exchange(&c, 300); long ol = atomic_exchange(&l, -1);
+  d += 1; f /= 2; c += 200; l <<= 3; b |= 1; p += 3; p++; int *op = atomic_exchange(&p, arr + 1);
+  double r = (d -= 0.25); float pf = f++; _Atomic double loc = 0.5; loc *= 8; --loc;
+  printf("%g %g %d %d %g %d %g %g %g %d %ld %d %ld %d %ld %ld %g %g %g\\n", od, (double)of, ok1, ok2, e2, ok3, (double)ef, (double)d, (double)f, oc, ol, c, (long)l, (int)b, (long)(op - arr), (long)(p - arr), r, (double)pf, (double)loc);
+  return 0;
+}
+'''
+    f = os.path.join(wd, 'api2.c'); open(f, 'w').write(api2)
+    st, got = compile_run(CHIBI, f, os.path.join(wd, 'api2.exe'), run_timeout=10); evals += 1
+    exp2 = '1.5 2.5 1 0 9 1 3.25 9.75 1.5 7 5 -12 -8 1 4 1 9.75 0.5 3'
+    if st != 'ok' or got.strip() != exp2:
+        run.violation(dict(kind='stdatomic-api-semantics', what=st, got=got.strip(), expected=exp2,
+                           meaning='exchange, compare-exchange and op= / ++ / -- on _Atomic float, double, char, long, _Bool and pointer objects (single thread); a run that does not end is a compare-exchange loop that can never succeed',
+                           replay_program=api2), dict(area='atomic-api', types='non-integer'))
+    # an _Atomic object wider than 8 bytes: either supported or refused with a located diagnostic, never an internal error
+    for k, decl in enumerate(['_Atomic long double w;', 'struct S { long a, b; }; _Atomic struct S w; struct S v;']):
+        use = 'w += 1;' if k == 0 else '__builtin_atomic_exchange(&w, v);'
+        f = os.path.join(wd, 'wide%d.c' % k); open(f, 'w').write('%s\nint main(void) { %s return 0; }\n' % (decl, use))
+        rc, o, e = sh(CHIBI + ['-c', '-o', f + '.o', f], timeout=60); evals += 1
+        first = e.strip().split('\n')[0] if e.strip() else ''
+        if not (rc == 0 or (rc == 1 and re.match(r'.*wide%d\.c:\d+: ' % k, first))):
+            run.violation(dict(kind='atomic-wide-object', exit=rc, stderr=e[-300:], program=open(f).read(), meaning='an _Atomic object of 16 bytes must be handled or refused with file:line, not with an internal error'), dict(area='atomic-api', types='wide'))
+
     # ---- (c) multi-threaded stress (a search for lost updates; asserts only on final values and returned-value sets)
     N, K = (4, 20000) if run.quick() else (16, 100000)
     stress = '''#include <stdatomic.h>
